@@ -12,7 +12,7 @@ from . import term as T
 class NotOrd(Exception):
     pass
 
-ARITH = {'fadd', 'fmul', 'fdiv', 'fneg', 'add', 'sub', 'mul', 'sdiv', 'call', 'fpext', 'fptrunc', 'sitofp', 'sext', 'zext', 'trunc', 'sel', 'bitcast'}
+ARITH = {'fadd', 'fmul', 'fdiv', 'fneg', 'add', 'sub', 'mul', 'sdiv', 'call', 'fpext', 'fptrunc', 'sitofp', 'sext', 'zext', 'trunc', 'sel', 'bitcast', 'absi'}
 
 def is_leaf(n):
     return n.op in ('in', 'arg', 'const') or n.op in ARITH
